@@ -6,6 +6,7 @@ prop("C15", pkg="c15",
           "Non-trivial = growth forced mid-value (p>0 and spare<n) or spare in {n-1,n,n+1}; distinct = FNV-64 of the whole case.",
      quick=dict(shards=16, scale=2, timeout=900),
      thorough=dict(shards=16, rounds=8, scale=1.5, timeout=3000),
+     fuzz=[('FuzzAppendGeometry', 60)],
      builds=[dict(name="default", tags=[], race=False), dict(name="purego", tags=["purego"], race=False, thorough_only=True)],
      technique="rapid property-based metamorphic testing (Append(b,v) = b ++ Append(nil,v)) with canary arenas; exhaustive sweep of []byte lengths x geometries",
      level_text="Exploration: metamorphic relation checked on several hundred thousand (value, prefix, capacity) triples per quick run with guard bytes on both "
